@@ -282,6 +282,7 @@ pub struct Cover {
     pub late_refs: u64,
     pub select_left_waker: u64,
     pub drops_while_panicking: u64,
+    pub kept_wakers: u64,
     /// state of the object's queue at the moment each kind of call / event reached it (reach matrix)
     pub at_desync: [u64; 8],
     pub at_sync: [u64; 8],
@@ -772,6 +773,17 @@ impl futures::Stream for SimStream {
         let st = &mut world.streams[self.s];
         st.polls += 1;
         if let Some(i) = st.items.pop_front() {
+            // a merged stream: an arm that is not ready has registered the waker although another arm delivers an item
+            let p = world.prog.faults.keep_waker_permille;
+            if p > 0 && !st.closed && (p >= 1000 || rt::kernel::coin(p)) {
+                let st = &mut w().streams[self.s];
+                if let Some(old) = st.waker.replace(cx.waker().clone()) {
+                    if st.stale.len() < 8 {
+                        st.stale.push(old);
+                    }
+                }
+                w().cover.kept_wakers += 1;
+            }
             return std::task::Poll::Ready(Some(i));
         }
         if st.closed {
